@@ -369,7 +369,7 @@ def lexGoCode (l : L) : L × St :=
 
 def lexTemplate (l : L) : L × St :=
   let l := l.acceptUntil Gen.lexTemplate_acceptUntil0
-  if l.s == kwGoht then (l, .gohtStart) else (l, .halt)
+  if l.s == kwGoht then (l, .gohtStart) else (l, .goCode)
 
 /-- the first half of `lexGohtStart`: capture the declaration up to its closing parenthesis -/
 def gohtStartSig (l : L) : Sum L L :=
@@ -377,7 +377,7 @@ def gohtStartSig (l : L) : Sum L L :=
   let l := { l with indent := 0 }
   let l := l.skipRun Gen.lexGohtStart_skipRun0
   let l := l.acceptUntil Gen.lexGohtStart_acceptUntil0
-  if hasPrefix l.s [40] then gohtStartLoop (l.cur.rest.length + 2) (l.next).1 else .inl l
+  gohtStartLoop (l.cur.rest.length + 2) (if hasPrefix l.s [40] then (l.next).1 else l)
 
 def lexGohtStart (l : L) : L × St :=
   match gohtStartSig l with
